@@ -245,9 +245,13 @@ def fk(inp, exp, obs):
     return '?' + str(n)      # not a known finding: only groups the report per call
 
 
-def run(rec, tier, seed):
+def run(rec, tier, seed, only=None):
     acalls = A_calls()
     ocalls = other_calls()
+    if only:
+        tok = only.split('.')[-1].lstrip('_')
+        acalls = [(n, f) for n, f in acalls if tok in n]
+        ocalls = [(n, m, f) for n, m, f in ocalls if tok in n]
     texts = ANNOTS if tier != 'quick' else ANNOTS[:4]
     # single calls: (a) (b) (d)
     for t in texts:
@@ -260,6 +264,25 @@ def run(rec, tier, seed):
         # history: the same call twice on the same arguments, and after every other "other" call is pointless (different args)
         inp2 = dict(call=name, history='twice')
         rec.guarded('history-independence', inp2, lambda: twice(make, f) + (('twice', name),), fk)
+    if only:
+        return
+    # ordered pairs of the calls on other arguments (fresh arguments each): coupling through process-wide state (caches, globals)
+    fresh_o = {}
+    for name, make, f in ocalls:
+        try:
+            fresh_o[name] = canon(force(f(*make())))
+        except Exception as e:  # noqa
+            fresh_o[name] = ('EXC', type(e).__name__)
+    # the results must not depend on which calls the process made before: every call's result computed in two fresh
+    # interpreters, once in table order and once in reverse table order (so each ordered pair (g before f) occurs in one of them)
+    fwd, rev = order_run('fwd'), order_run('rev')
+    for name in sorted(set(fwd) | set(rev)):
+        inp = dict(call=name, history='process-order')
+        rec.case('history-independence', fwd.get(name) == rev.get(name), inp, ('same result in both call orders', fwd.get(name)),
+                 rev.get(name), nontrivial_key=('order', name), finding_key='?order:' + name)
+    for (gn, gm, g), (fn, fm, f) in itertools.product(ocalls, ocalls):
+        inp = dict(g_other=gn, f_other=fn)
+        rec.guarded('history-independence', inp, lambda: opair(gm, g, fm, f, fresh_o[fn]) + (('opair', fn),), fk_pair)
     # ordered pairs on one shared annotation: (c)
     pairs_texts = texts[1:3] if tier == 'quick' else texts[1:]
     for t in pairs_texts:
@@ -282,7 +305,7 @@ def run(rec, tier, seed):
 
 
 def fk_pair(inp, exp, obs):
-    return '?after:' + str(inp.get('g')) + ('/' + str(inp.get('h')) if inp.get('h') else '')
+    return '?after:' + str(inp.get('g') or inp.get('g_other')) + ('/' + str(inp.get('h')) if inp.get('h') else '')
 
 
 def twice(make, f):
@@ -318,6 +341,50 @@ def pair(t, g, f, fresh_result):
     return r == fresh_result, ('same result as on a fresh object', fresh_result), r
 
 
+def opair(gm, g, fm, f, fresh_result):
+    try:
+        force(g(*gm()))
+    except Exception:
+        pass
+    try:
+        r = canon(force(f(*fm())))
+    except Exception as e:  # noqa
+        r = ('EXC', type(e).__name__)
+    return r == fresh_result, ('same result as in a fresh process state', fresh_result), r
+
+
+def order_results(order):
+    calls = [(n, (lambda f_=f, t_=ANNOTS[1]: [parse(t_)]), f) for n, f in A_calls()] + [(n, m, f) for n, m, f in other_calls()]
+    if order == 'rev':
+        calls = list(reversed(calls))
+    out = {}
+    for n, m, f in calls:
+        random.seed(99)
+        try:
+            out[n] = repr(canon(force(f(*m()))))
+        except Exception as e:  # noqa
+            out[n] = 'EXC ' + type(e).__name__
+    return out
+
+
+def order_run(order):
+    import subprocess
+    p = subprocess.run([sys.executable, os.path.abspath(__file__), '--order', order], capture_output=True, text=True,
+                       env=dict(os.environ))
+    try:
+        return json.loads(p.stdout.strip().split('\n')[-1])
+    except Exception:
+        return {'_error': p.stderr[-300:]}
+
+
+def ref_again(make, f, ref):
+    try:
+        r = canon(force(f(*make())))
+    except Exception as e:  # noqa
+        r = ('EXC', type(e).__name__)
+    return r == ref, ('same result as the first time it was computed in this process', ref), r
+
+
 def triple(t, g, h, f):
     try:
         fresh = canon(force(f(parse(t))))
@@ -336,9 +403,22 @@ def triple(t, g, h, f):
     return r == fresh, ('same result as on a fresh object', fresh), r
 
 
+def replay_opair(gm, g, fm, f):
+    try:
+        fresh = canon(force(f(*fm())))
+    except Exception as e:  # noqa
+        fresh = ('EXC', type(e).__name__)
+    return opair(gm, g, fm, f, fresh)
+
+
 def replay_case(inp):
     ac = dict(A_calls())
     oc = {n: (m, f) for n, m, f in other_calls()}
+    if 'g_other' in inp:
+        gm, g = oc[inp['g_other']]
+        fm, f = oc[inp['f_other']]
+        return opair(gm, g, fm, f, None)[:1] + ('same result as in a fresh process state (replay: compare with a fresh interpreter)', None) \
+            if False else replay_opair(gm, g, fm, f)
     if 'g' in inp and 'h' in inp:
         return triple(inp['annotation'], ac[inp['g']], ac[inp['h']], ac[inp['f']])
     if 'g' in inp:
@@ -348,6 +428,23 @@ def replay_case(inp):
         except Exception as e:  # noqa
             fresh = ('EXC', type(e).__name__)
         return pair(inp['annotation'], ac[inp['g']], f, fresh)
+    if inp.get('history') == 'process-order':
+        fwd, rev = order_run('fwd'), order_run('rev')
+        n = inp['call']
+        return fwd.get(n) == rev.get(n), ('same result in both call orders', fwd.get(n)), rev.get(n)
+    if inp.get('history') == 'reference-order':
+        # replay: the first computation in this process, then every other call, then again
+        m, f = oc[inp['call']]
+        try:
+            ref = canon(force(f(*m())))
+        except Exception as e:  # noqa
+            ref = ('EXC', type(e).__name__)
+        for n2, (m2, f2) in oc.items():
+            try:
+                force(f2(*m2()))
+            except Exception:
+                pass
+        return ref_again(m, f, ref)
     if inp.get('history') == 'twice':
         m, f = oc[inp['call']]
         return twice(m, f)
@@ -359,6 +456,9 @@ def replay_case(inp):
 
 
 def main():
+    if '--order' in sys.argv:
+        print(json.dumps(order_results(sys.argv[sys.argv.index('--order') + 1])))
+        return
     a = args()
     if a.replay:
         replay_main(a, {'single-call': replay_case, 'history-independence': replay_case})
@@ -368,7 +468,7 @@ def main():
                    'state; ALL ordered pairs of annotation calls on one shared object vs the result on a fresh object; seeded random '
                    'triples; non-trivial = distinct (kind, call)',
                    bound='4 (quick) / 5 (thorough) annotations for single calls; all ordered pairs on 2 / 4 annotations; 100 / 3000 triples')
-    run(rec, a.tier, a.seed)
+    run(rec, a.tier, a.seed, a.only)
     rec.dump(a.out)
 
 
